@@ -84,11 +84,6 @@ Meet3LL(l, m) == FirstNonZeroVec([i \in 1..4 |-> MatVec(PMat(l), PMatDual(m)[i])
 Join3LL(l, m) == FirstNonZeroVec([i \in 1..4 |-> MatVec(PMatDual(l), PMat(m)[i])], 1)
 
 ---------------------------------------------------------------------------
-\* The lattice: all vectors of length n with entries in -K..K
-Lattice(n, K) == [1..n -> (-K)..K]
-NonZero(S) == {v \in S : ~IsZeroV(v)}
-\* one representative per projective class
-Classes(n, K) == {v \in NonZero(Lattice(n, K)) : v = Primitive(v)}
 \* lines of P^3 through two lattice points, canonical Pluecker vectors
 Lines3(K) == {Primitive(PlueckerOfPoints(a, b)) : a \in Classes(4, K), b \in Classes(4, K)} \ {Zero(6)}
 
